@@ -206,4 +206,4 @@ def check(case: dict) -> dict:
     return {'nontrivial': True, 'classes': classes}
 
 
-ENGINES = [Engine('faults', cases, check, quick=120, thorough=2000, batch=60, fixed_cases=fixed_cases)]
+ENGINES = [Engine('faults', cases, check, quick=120, thorough=6000, batch=100, fixed_cases=fixed_cases, thorough_s=1200.0)]
